@@ -44,7 +44,7 @@ def lean_obligations(pid, tier, log):
     thms = cfg["theorems"]
     mods = cfg.get("modules", [f"SfsModel.Props.{pid}"])
     problems = []
-    checker = f"cd lean && lake build SfsModel.Props.{pid} sfsmodel && lake env lean <audit: #print axioms per theorem>"
+    checker = "cd lean && lake build %s sfsmodel && lake env lean <audit: #print axioms per theorem>" % " ".join(cfg.get("modules", [f"SfsModel.Props.{pid}"]))
     with Lock("lake.lock"):
         rc, out = sh(["lake", "build"] + mods + ["sfsmodel"], cwd=LEAN, timeout=3600)
     log.append(out[-4000:])
@@ -77,7 +77,7 @@ def lean_obligations(pid, tier, log):
     if tier == "thorough":
         rc, out = sh(["lake", "env", "leanchecker"] + mods, cwd=LEAN, timeout=3600)
         log.append("leanchecker rc=%d %s" % (rc, out[-1000:]))
-        checker += f" && lake env leanchecker SfsModel.Props.{pid}"
+        checker += " && lake env leanchecker " + " ".join(mods)
         if rc != 0: problems.append("leanchecker rejected SfsModel.Props.%s" % pid)
     return len(thms), discharged, problems, checker
 
